@@ -184,6 +184,9 @@ func (m Mode) String() string {
 // ReadErrorsFirst: Parse reads Errors() once between Build and ParseProgram (set per run by single-task engines).
 var ReadErrorsFirst bool
 
+// AfterBuild, when set, runs between Build and ParseProgram (single-task engines only).
+var AfterBuild func()
+
 // Parse builds a parser from pb for src and parses, recovering panics.
 func Parse(pb *parser.Builder, src string) (out ParseOutcome) {
 	defer func() {
@@ -194,6 +197,9 @@ func Parse(pb *parser.Builder, src string) (out ParseOutcome) {
 	}()
 	p := pb.Build(src)
 	out.Parser = p
+	if AfterBuild != nil {
+		AfterBuild()
+	}
 	if ReadErrorsFirst {
 		_ = p.Errors() // a host that looks at the (still empty) error list of the fresh parser before parsing
 	}
